@@ -579,6 +579,8 @@ impl Client {
                 .map_err(|_| poisoned_lock_error("client pending map"))?;
             pending.insert(id, sender);
         }
+        #[cfg(feature = "verif-hooks")]
+        crate::verif_hooks::hit("client.after_register");
 
         if let Err(err) = self.write_request(&msg) {
             self.remove_pending(id);
@@ -599,6 +601,8 @@ impl Client {
             Some(duration) => match receiver.recv_timeout(duration) {
                 Ok(value) => value,
                 Err(mpsc::RecvTimeoutError::Timeout) => {
+                    #[cfg(feature = "verif-hooks")]
+                    crate::verif_hooks::hit("client.timeout.before_remove");
                     self.remove_pending(id);
                     Err(request_timeout_error(id, duration))
                 }
@@ -618,6 +622,8 @@ impl Client {
     }
 
     fn write_request(&self, msg: &Message) -> Result<(), RepeError> {
+        #[cfg(feature = "verif-hooks")]
+        crate::verif_hooks::hit("client.before_write");
         let mut writer = self
             .inner
             .writer
@@ -753,6 +759,8 @@ fn spawn_response_loop(mut reader: BufReader<TcpStream>, inner: std::sync::Weak<
                 }
             };
 
+            #[cfg(feature = "verif-hooks")]
+            crate::verif_hooks::hit("client.reader.got_frame");
             let dispatch = {
                 let Some(inner_ref) = inner.upgrade() else {
                     break;
@@ -773,6 +781,8 @@ fn spawn_response_loop(mut reader: BufReader<TcpStream>, inner: std::sync::Weak<
 
             match dispatch {
                 PendingDispatch::Matched { sender, response } => {
+                    #[cfg(feature = "verif-hooks")]
+                    crate::verif_hooks::hit("client.reader.before_deliver");
                     let _ = sender.send(Ok(response));
                 }
                 PendingDispatch::Unrecognized { got_id } => {
@@ -795,6 +805,8 @@ fn fail_all_pending(inner: &std::sync::Weak<ClientInner>, err: RepeError) {
         };
         let _ = writer.get_ref().shutdown(Shutdown::Both);
     }
+    #[cfg(feature = "verif-hooks")]
+    crate::verif_hooks::hit("client.fail.after_shutdown");
 
     let waiters = {
         let mut map = match inner_ref.pending.lock() {
